@@ -397,12 +397,12 @@ def triage(prop, cands, binaries, max_groups=24):
 
 # ----------------------------------------------------------------------------------------------- checks
 ELEMS = ['ETriv', 'ETr', 'ENonTr', 'ENonTrX']
-VEC_ALL = [e + '_' + k for e in ELEMS for k in ('basic', 'mixed', 'limits')] + ['ETrivS_overlap', 'Arith_basic']
+VEC_ALL = [e + '_' + k for e in ELEMS for k in ('basic', 'mixed', 'limits')] + ['ETrivS_overlap', 'ETrivB_overlap', 'Arith_basic']
 VEC_HOOKS = [e + '_' + k for e in ('ETr', 'ENonTr', 'ENonTrX') for k in ('basic', 'mixed', 'limits')]
 VEC_LIMITS = [e + '_limits' for e in ELEMS] + [e + '_basic' for e in ELEMS] + ['ETriv_mixed', 'ETr_mixed', 'ENonTr_mixed']
-VEC_SMALL = [e + '_' + k for e in ELEMS for k in ('basic', 'mixed')] + ['ETrivS_overlap']
+VEC_SMALL = [e + '_' + k for e in ELEMS for k in ('basic', 'mixed')] + ['ETrivS_overlap', 'ETrivB_overlap']
 # library-style element types: std::string (SSO self-pointer), std::pair of (non-)relocatable members, a nested inline SmallVector
-VEC_EXOTIC = ['Str_basic', 'PairTN_basic', 'PairNT_basic', 'PairTT_basic', 'Nest_basic']
+VEC_EXOTIC = ['Str_basic', 'PairTN_basic', 'PairNT_basic', 'PairTT_basic', 'Nest_basic', 'NestStr_basic']
 VEC_EXOTIC_HOOKS = ['PairTN_basic', 'PairNT_basic', 'PairTT_basic', 'Nest_basic']
 
 
